@@ -56,6 +56,7 @@ pub static INFO: PropInfo = PropInfo {
         ("refused.observed_replay", 50),
         ("late_response_ignored", 50),
         ("late_response_subsecond_steps", 30),
+        ("late_response_after_superseded_long_lived_token", 30),
     ],
     engines_quick: &["e1"],
     engines_thorough: &["e1"],
@@ -743,6 +744,15 @@ pub fn one_run(ctx: &Ctx, out: &mut Outcome, run_seed: u64) {
                 let e = w.now_s() + 1;
                 let t = w.mint(&mut r, id, e, None, None, None, None);
                 let x = w.fresh_addr(&mut r);
+                // sometimes the same address first presented another, long-lived token (a client that restarted with a
+                // fresh token): the half-open session then belongs to the short-lived one, expiry included
+                if r.chance(1, 2) {
+                    let id0 = if r.chance(1, 2) { id } else { w.fresh_id() };
+                    let e0 = w.now_s() + 60;
+                    let t0 = w.mint(&mut r, id0, e0, None, None, None, None);
+                    let _ = request(&mut w, ctx, out, 0, t0, x, "request-long-lived-first");
+                    out.count("late_response_after_superseded_long_lived_token");
+                }
                 if let Some(b) = request(&mut w, ctx, out, 0, t, x, "request-short-lived") {
                     // the clock passes the expiry in one step or in many sub-second steps (frame-sized updates)
                     let step = *r.pick(&[2100u64, 1050, 700, 100, 16, 999, 1]);
